@@ -205,7 +205,12 @@ PROPS = {
                 "set/batch_set (15% rejected by the database), get/batch_get, the user-state queries, begin/commit/rollback, "
                 "flush, sleeps that outlive the 3 ms item lifetime; uncached / cached / 300-byte memory limit; every read is "
                 "compared with the model AND, by the oracle, with the same read issued through an uncached manager on the "
-                "database as it is at that moment (after committing the pending records when a transaction is open)",
+                "database as it is at that moment (after committing the pending records when a transaction is open); "
+                "o.st.flushprobe ('after a flush the next read of the epoch record reflects storage'): the records a cached manager "
+                "holds are replaced in the database by ANOTHER writer, the manager is flushed in every state it can be in (idle, "
+                "inside a transaction with and without pending records, committing afterwards, cache cleaning disabled as during "
+                "an audit, after the items expired; three cache configurations) and the next get / batch_get of the epoch record, "
+                "nodes and value states must equal uncached reads",
         "assumptions": ["cache timing is over-approximated in the model by a nondeterministic evict step enabled iff cleaning is enabled",
                         "the model's atomic step is one storage-manager call (single task)"],
     },
@@ -236,7 +241,10 @@ PROPS = {
                 "search, for disjoint labels, the same label, update+insert and three publishers, cached and uncached; oracle on "
                 "the real outcomes: calls that changed the directory got distinct consecutive epochs, every returned (epoch, root) "
                 "equals the serial execution of the successful batches in epoch order, the final database equals it, no "
-                "transaction is left open; every explored run's storage-call trace is validated by the model (Conc.validate)",
+                "transaction is left open; every explored run's storage-call trace is validated by the model (Conc.validate); "
+                "'fails without effect': the same enumeration with the n-th single-record read of ONE of the publishes failing "
+                "(n = 0..11: before, in the middle of and after its first writes into the transaction) while the others wait "
+                "for the lock — the failed call must leave nothing behind for the calls that follow (same serial-execution oracle)",
         "assumptions": ["preemption inside in-memory sections on a multi-thread runtime (DashMap shards, relaxed atomics) is not in the model"],
     },
     "C13": {
@@ -356,7 +364,9 @@ PROPS = {
                 "rejected, every byte of the 80-byte proof flipped / zeroed / incremented and wrong lengths never make a DIFFERENT "
                 "node label verify, node label / nonce / commitment differ under a second key; (c) altered VRF proof bytes (flip, "
                 "zero, increment, truncation, s + group order, honest proofs for other inputs) through the REAL lookup_verify, "
-                "compared with the model of verify_label",
+                "compared with the model of verify_label; (d) o.vrf.batch: the batch derivation publish uses (get_node_labels, "
+                "parallel tasks on a multi-thread runtime) on 120 (thorough 400) inputs with short and long labels, three rounds: "
+                "every node label returned is the one get_node_label derives for the input it is paired with",
         "assumptions": ["uniqueness / non-malleability of ECVRF outputs, key separation, SHA-512 and Edwards arithmetic are assumed "
                         "(explored by the oracle, not proved)"],
     },
